@@ -79,14 +79,21 @@ def write_replay(prop, rf, reg):
         f.write('\n'.join(header) + '\n' + '\n'.join(pre) + '\n' + wrapped)
     reproduced = False
     out = ''
+    import shutil
+    import tempfile
+    # the replay runs real code on stub objects: run it in a scratch directory, so that a stub path that reaches a
+    # real file operation (open / mkdir with the stub's name) cannot litter the verification repository
+    scratch = tempfile.mkdtemp(prefix='pyvc-replay-')
     try:
-        p = subprocess.run([PY, path], capture_output=True, text=True, timeout=120,
+        p = subprocess.run([PY, os.path.abspath(path)], capture_output=True, text=True, timeout=120, cwd=scratch,
                            env=dict(os.environ, PYTHONPATH=REPO_SRC))
         # (exit status 1 alone is also what CPython gives for a script it cannot compile or that dies)
         reproduced = (p.returncode == 1 and REPRODUCED in p.stdout)
         out = (p.stdout + p.stderr)[-2000:]
     except Exception as e:
         out = repr(e)
+    finally:
+        shutil.rmtree(scratch, ignore_errors=True)
     with open(path, 'a') as f:
         f.write('\n# --- output of the replay when it was written (reproduced=%s):\n' % reproduced)
         for line in out.splitlines():
